@@ -138,14 +138,14 @@ func maxSweepSteps(tier string) int {
 }
 
 func c02Opts(tier string) (stdOpts, uint64) {
-	o := stdOpts{IMBound: 1, SeqL: 2, EntrySeqL: 1, EIPs: true, Forks: world.StandardForks(), Gas: 200000, MinShape: true, SstoreSeq: true, Scn: true, ScnGas: 3_000_000}
+	o := stdOpts{IMBound: 1, SeqL: 2, EntrySeqL: 1, EIPs: true, Forks: world.StandardForks(), Gas: 200000, MinShape: true, SstoreSeq: true, Scn: true, ScnLite: true, ScnGas: 3_000_000}
 	full := uint64(64)
 	if tier == "thorough" {
 		o.IMBound = 2
 		o.SeqL = 3
 		o.FullShape = true
 		o.MinShape = false
-		o.ScnDeep = true
+		o.ScnDeep, o.ScnLite = true, false
 		full = 2048
 	}
 	return o, full
